@@ -300,7 +300,10 @@ pub fn fspec() -> impl Strategy<Value = FSpec> {
         prop_oneof![
             1 => inner.clone().prop_map(|f| FSpec::Negate(Box::new(f))),
             1 => inner.clone().prop_map(|f| FSpec::NotOp(Box::new(f))),
-            3 => (inner.clone(), inner).prop_map(|(a, b)| FSpec::And(Box::new(a), Box::new(b))),
+            3 => (inner.clone(), inner.clone()).prop_map(|(a, b)| FSpec::And(Box::new(a), Box::new(b))),
+            // the same sub-filter used twice in one conjunction
+            1 => inner.clone().prop_map(|a| FSpec::And(Box::new(a.clone()), Box::new(a))),
+            1 => (inner.clone(), inner).prop_map(|(a, b)| FSpec::And(Box::new(FSpec::And(Box::new(a.clone()), Box::new(b))), Box::new(a))),
         ]
     })
 }
